@@ -12,6 +12,7 @@ from . import h5lib, synth
 
 import h5py
 from metador_core.container import MetadorContainer
+from metador_core.container.interface import NodeAcl  # noqa: F401
 from metador_core.ih5.container import IH5MFRecord, IH5Record
 from metador_core.plugins import schemas
 from metador_core.schema import MetadataSchema
@@ -118,6 +119,8 @@ def instances(cls_key: str, rng: random.Random) -> Dict[str, Any]:
             from . import geninst
             objs = geninst.instances(CLASSES[cls_key], random.Random(len(cls_key)), 10)
             _inst_pool[cls_key] = [json.loads(o.json()) for o in objs]
+        if not _inst_pool[cls_key]:
+            return dict(INVALID)    # the class accepts none of the generated candidates: the attach will be refused
         return rng.choice(_inst_pool[cls_key])
     s = rng.choice(["x", "äöü ✓", "line\nbreak", "0", " padded ", "smile \U0001F600", "\U00020BB7", "1e3", "yes"])
     i = rng.choice([0, 1, -1, 2**40, 7])
@@ -151,6 +154,7 @@ class Env:
         jsdig: Dict[str, str] = {}
         aux: List[str] = []
         pg_mismatch: List[str] = []
+        pkg_mismatch: List[str] = []
         for n in NAMES:
             refs = schemas.versions(n)
             vers[n] = [list(r.version) for r in refs]
@@ -173,11 +177,19 @@ class Env:
                     pg_mismatch.append(f"{key}: parent_path {pp} but the class chain is {parents[key]}")
                 pk = schemas.provider(r)
                 provider[key] = [str(pk.name), list(pk.version)]
+                # the package description lists exactly the entry points the harness registered, group by group
+                dist = synth._DISTS.get(str(pk.name))
+                if dist is not None:
+                    want = {g_[len("metador_"):]: sorted(n_ for n_, _ in lst) for g_, lst in dist._eps.items()}
+                    from metador_core.plugin.types import to_ep_name as _ten
+                    got = {str(g_): sorted(str(_ten(x.name, tuple(x.version))) for x in refs_) for g_, refs_ in pk.plugins.items()}
+                    if got != want and f"{pk.name}" not in [m_.split(":")[0] for m_ in pkg_mismatch]:
+                        pkg_mismatch.append(f"{pk.name}: package description lists {got}, registered {want}")
                 jsdig[key] = hashlib.sha1(cls.schema_json().encode()).hexdigest()[:12]
                 if cls.Plugin.auxiliary and n not in aux:
                     aux.append(n)
         return {"versions": vers, "parents": parents, "provider": provider, "jsdig": jsdig, "aux": aux,
-                "pg_mismatch": pg_mismatch}
+                "pg_mismatch": pg_mismatch + pkg_mismatch}
 
 
 # --------------------------------------------------------------------------------------
@@ -207,11 +219,19 @@ class Driver:
             if getattr(self, "_mode", "r+") != "r":
                 raise
         self._mode = mode
-        if self.kind == "h5":
-            self.raw = h5py.File(self.d / "c.h5", mode)
+        self.held = {}
+        self._nreopen = getattr(self, "_nreopen", 0) + 1
+        cls = {"h5": h5py.File, "ih5": IH5Record, "mf": IH5MFRecord}[self.kind]
+        src = self.d / ("c.h5" if self.kind == "h5" else "c")
+        if self._nreopen % 2:
+            self.raw = cls(src, mode)
+            self.mc = MetadorContainer(self.raw)
         else:
-            self.raw = {"ih5": IH5Record, "mf": IH5MFRecord}[self.kind](self.d / "c", mode)
-        self.mc = MetadorContainer(self.raw)
+            # the other documented way: data source + driver class; the container must wrap an object of that very class
+            self.mc = MetadorContainer(src, mode, driver=cls)
+            self.raw = self.mc.__wrapped__
+            if type(self.raw) is not cls:
+                raise TypeError(f"MetadorContainer(source, mode, driver={cls.__name__}) wraps a {type(self.raw).__name__}")
 
     def boundary(self):
         if self.kind != "h5":
